@@ -385,3 +385,89 @@ func pubsubHandover(seed int64, rounds int, want map[string]bool, enc *json.Enco
 		enc.Encode(rep)
 	}
 }
+
+// prune scenario (C19, concurrent): a channel whose only subscriber has DISCONNECTED without the table knowing yet (its connection is dead;
+// the next Send notices and prunes it) is published to at the very moment another connection subscribes to it.  Whatever the server does
+// with a channel that turns out to have no live subscriber, publishers and subscribers must not block one another for ever, and a
+// SUBSCRIBE that returned is a subscription the next PUBLISH counts and reaches.  Runs directly on the executor (PUBLISH) and the
+// subscription table (what SUBSCRIBE calls), 8 worker pairs on their own channels, so that the two calls really overlap.
+// Added after the seeded change C19-release-empty-channel-lock-order (PUBLISH with 0 receivers dropped the channel, taking the channel
+// lock and then the table lock - the reverse of Subscribe's order: a deadlock that freezes every later PUBLISH and SUBSCRIBE).
+func pubsubPrune(seed int64, rounds int, want map[string]bool, enc *json.Encoder) {
+	if !want["all"] && !want["pubsub"] {
+		return
+	}
+	for r := 0; r < rounds; r++ {
+		rep := concReport{Scenario: "pubsub-prune", Seed: seed + int64(r), Goroutines: 16, Shards: 1024}
+		config.Configures.ShardNum = 1024
+		mgr := server.NewManager(config.Configures)
+		tab := mgr.CurrentDB.SubChans
+		const workers, perWorker = 8, 2500
+		var bad atomic.Value
+		var ops atomic.Int64
+		var wg sync.WaitGroup
+		for w := 0; w < workers; w++ {
+			wg.Add(1)
+			go func(w int) {
+				defer wg.Done()
+				ch := fmt.Sprintf("prune-%d", w)
+				for i := 0; i < perWorker && bad.Load() == nil; i++ {
+					// a subscriber that is already gone
+					ca, sa := net.Pipe()
+					tab.Subscribe(ch, sa)
+					ca.Close()
+					sa.Close()
+					cb, sb := net.Pipe()
+					var gotB atomic.Bool
+					go func() {
+						buf := make([]byte, 64)
+						if n, _ := cb.Read(buf); n > 0 {
+							gotB.Store(true)
+						}
+						io.Copy(io.Discard, cb)
+					}()
+					var inner sync.WaitGroup
+					var idB, pubOut string
+					inner.Add(2)
+					go func() { defer inner.Done(); pubOut, _ = runCmd(mgr, "PUBLISH", ch, "x") }()
+					go func() { defer inner.Done(); idB = tab.Subscribe(ch, sb) }()
+					inner.Wait()
+					_ = pubOut
+					out, _ := runCmd(mgr, "PUBLISH", ch, "y")
+					if out == ":1\r\n" {
+						for k := 0; k < 400 && !gotB.Load(); k++ {
+							time.Sleep(50 * time.Microsecond)
+						}
+					}
+					if out != ":1\r\n" || !gotB.Load() {
+						bad.CompareAndSwap(nil, fmt.Sprintf("round %d on %s: a Subscribe that had returned was answered %q by the next PUBLISH and the subscriber %s it "+
+							"(the channel's previous subscriber was dead and a PUBLISH pruned it while this one joined)", i, ch, out, map[bool]string{true: "received", false: "never received"}[gotB.Load()]))
+					}
+					tab.UnSubscribe(ch, idB)
+					sb.Close()
+					cb.Close()
+					ops.Add(3)
+				}
+			}(w)
+		}
+		done := make(chan struct{})
+		go func() { wg.Wait(); close(done) }()
+		select {
+		case <-done:
+			rep.Result = "ok"
+			if b := bad.Load(); b != nil {
+				rep.Result, rep.Detail = "invariant", b.(string)
+			}
+		case <-time.After(25 * time.Second):
+			buf := make([]byte, 1<<15)
+			n := runtime.Stack(buf, true)
+			rep.Result = "stuck"
+			rep.Detail = fmt.Sprintf("after %d operations PUBLISH and SUBSCRIBE on channels whose only subscriber was dead block one another for ever (no progress for 25 s)\n%s", ops.Load(), buf[:n])
+		}
+		rep.Ops = int(ops.Load())
+		enc.Encode(rep)
+		if rep.Result == "stuck" {
+			return
+		}
+	}
+}
